@@ -440,3 +440,156 @@ def rational_reversible_spec(rng):
         if spectrum_ok(K)[0]:
             return spec
     return None
+
+
+# ------------------------------------------------------------------------------------------
+# parallel / sequential megacomplexes with zero and equal rates
+# ------------------------------------------------------------------------------------------
+ZERO_EQUAL_MODES = ["zero-last", "zero-last", "zero-any", "zero-first", "zero-two", "equal", "equal-and-zero", "all-zero"]
+
+
+def rand_zero_equal_spec(rng, kind=None, mode=None, n=None):
+    """par / seq megacomplex whose rates contain zeros (anywhere) and / or equal values; the other rates are well
+    separated.  In the property's domain iff all rates are pairwise distinct (then at most one is zero)."""
+    kind = kind or rng.choice(["par", "seq"])
+    mode = mode or rng.choice(ZERO_EQUAL_MODES)
+    for _ in range(40):
+        nn = n or rng.choice([1, 2, 2, 3, 3, 4, 5, 6])
+        ex = rng.random() < 0.5
+        names = list(NAMES[:nn]) if rng.random() < 0.8 else rng.sample(ODD_NAMES, nn)
+        if rng.random() < 0.3:
+            rng.shuffle(names)
+        rates = [dyadic_rate(rng) if ex else wide_rate(rng) for _ in range(nn)]
+        base = {"kind": kind, "comps": names, "rates": list(rates), "times": [], "exact": True}
+        if nn > 1 and not spectrum_ok(system_of(base)[1])[0]:
+            continue
+        if mode == "zero-last":
+            rates[-1] = 0.0
+        elif mode == "zero-first":
+            rates[0] = 0.0
+        elif mode == "zero-any":
+            rates[rng.randrange(nn)] = 0.0
+        elif mode == "zero-two":
+            for i in rng.sample(range(nn), min(2, nn)):
+                rates[i] = 0.0
+        elif mode == "equal":
+            if nn >= 2:
+                a, b = rng.sample(range(nn), 2)
+                rates[a] = rates[b]
+        elif mode == "equal-and-zero":
+            if nn >= 2:
+                a, b = rng.sample(range(nn), 2)
+                rates[a] = rates[b]
+            rates[rng.randrange(nn)] = 0.0
+        else:
+            rates = [0.0] * nn
+        return {"kind": kind, "comps": names, "rates": rates, "times": rand_times(rng),
+                "tag": f"zeroeq-{kind}-{mode}/n{nn}/{'E' if ex else 'R'}", "exact": bool(ex)}
+    return None
+
+
+# ------------------------------------------------------------------------------------------
+# several decay megacomplexes in one dataset model, sharing one initial-concentration item
+# ------------------------------------------------------------------------------------------
+MULTI_NAMES = ["s2", "s10", "s1", "b", "a", "é", "S1", "x y"]         # not in lexicographic order on purpose
+
+
+def sub_spec(spec, m):
+    """the single-megacomplex case a megacomplex of a multi spec corresponds to (same initial-concentration item)"""
+    if m["kind"] == "decay":
+        return {"kind": "decay", "ic_comps": list(spec["ic_comps"]), "ic_params": list(spec["ic_params"]),
+                "excl": list(spec.get("excl", [])), "kms": m["kms"], "km_labels": m["km_labels"],
+                "times": list(spec["times"]), "tag": "sub-of-multi", "exact": spec.get("exact", False)}
+    return {"kind": m["kind"], "comps": list(m["comps"]), "rates": list(m["rates"]), "times": list(spec["times"]),
+            "tag": "sub-of-multi", "exact": spec.get("exact", False)}
+
+
+def multi_ok(spec):
+    """every megacomplex has a non-empty system with an acceptable spectrum and a non-negative finite j"""
+    seen_km = set()
+    for m in spec["megas"]:
+        try:
+            comps, K, j, _ = system_of(sub_spec(spec, m))
+        except Exception:
+            return False
+        if len(comps) == 0 or not np.all(np.isfinite(j)) or np.any(j < 0):
+            return False
+        if not spectrum_ok(K)[0]:
+            return False
+        for lab in m.get("km_labels", []):
+            if lab in seen_km:
+                return False
+            seen_km.add(lab)
+    tot = sum(v for c, v in zip(spec["ic_comps"], spec["ic_params"]) if c not in spec.get("excl", []))
+    return tot > 0
+
+
+def rand_multi_spec(rng):
+    for _ in range(60):
+        nic = rng.choice([2, 3, 3, 4, 5])
+        ic = rng.sample(MULTI_NAMES, nic)
+        ex = rng.random() < 0.6
+        rate = (lambda: dyadic_rate(rng)) if ex else (lambda: wide_rate(rng))
+        params = [float(rng.choice([1, 1, 2, 3, 4, 0.5, 0])) for _ in ic]
+        excl = [c for c in ic if rng.random() < 0.3] if rng.random() < 0.6 else []
+        # split the compartments over 1..3 decay megacomplexes (sometimes overlapping in one compartment)
+        k = rng.choice([1, 2, 2, 2, 3])
+        groups = [[] for _ in range(k)]
+        for c in ic:
+            groups[rng.randrange(k)].append(c)
+        groups = [g for g in groups if g]
+        if len(groups) > 1 and rng.random() < 0.25:
+            src = rng.choice(groups)
+            dst = rng.choice([g for g in groups if g is not src])
+            dst.append(rng.choice(src))
+        megas = []
+        kc = 0
+        for gi, g in enumerate(groups):
+            g = list(g)
+            rng.shuffle(g)
+            topo = rng.choice(["chain", "chain", "parallel", "branch", "chain+loss", "star", "chain-noloss"])
+            edges = topology_edges(rng, topo, g, rate)
+            kms = split_kms(rng, edges, rate)
+            labs = [f"k{kc + i + 1}" for i in range(len(kms))]
+            kc += len(kms)
+            megas.append({"kind": "decay", "label": rng.choice(["mc", "m", "decay_", "x+"]) + str(gi + 1), "kms": kms, "km_labels": labs})
+        if rng.random() < 0.4:
+            kind = rng.choice(["par", "seq"])
+            nn = rng.choice([1, 2, 3])
+            own = rng.sample(["p2", "p1", "p10", "q"], nn)
+            if rng.random() < 0.3:
+                own[rng.randrange(nn)] = rng.choice(ic)          # shares a clp label with a decay megacomplex
+            if len(set(own)) == nn:
+                megas.append({"kind": kind, "label": kind + "X", "comps": own, "rates": [rate() for _ in own]})
+        rng.shuffle(megas)
+        spec = {"kind": "multi", "ic_comps": ic, "ic_params": params, "excl": excl, "megas": megas,
+                "times": sorted(set([0.0] + [float(t) for t in rand_times(rng) if 0 <= t < 200])),
+                "global_dimension": "pixel" if rng.random() < 0.3 else "spectral",
+                "tag": f"multi/{len(megas)}/{'E' if ex else 'R'}", "exact": bool(ex)}
+        if multi_ok(spec):
+            return spec
+    return None
+
+
+def multi_config_specs():
+    """small configurations, enumerated: every declaration order of three non-lexicographic labels x
+    exclude_from_normalize subsets x ways of splitting the scheme over decay megacomplexes x megacomplex order"""
+    labels = ["s2", "s10", "s1"]
+    val = {"s2": 1.0, "s10": 5.0, "s1": 2.0}
+    splits = {
+        "one-chain": [[["s10", "s1", 2.0], ["s2", "s10", 0.5], ["s2", "s2", 0.25]]],
+        "chain+single": [[["s2", "s1", 2.0], ["s2", "s2", 0.5]], [["s10", "s10", 0.25]]],
+        "three-singles": [[["s1", "s1", 2.0]], [["s2", "s2", 0.5]], [["s10", "s10", 0.25]]],
+        "overlap": [[["s2", "s1", 2.0], ["s2", "s2", 0.5]], [["s10", "s2", 0.25], ["s10", "s10", 4.0]]],
+    }
+    for order in itertools.permutations(labels):
+        for excl in ([], ["s10"], ["s1"], ["s2", "s10"]):
+            for sname, split in splits.items():
+                orders = [list(range(len(split)))] + ([list(reversed(range(len(split))))] if len(split) > 1 else [])
+                for mo in orders:
+                    megas = [{"kind": "decay", "label": f"mc{i + 1}", "kms": [split[i]], "km_labels": [f"k{i + 1}"]} for i in mo]
+                    spec = {"kind": "multi", "ic_comps": list(order), "ic_params": [val[c] for c in order], "excl": list(excl),
+                            "megas": megas, "times": [0.0, 0.5, 2.0], "global_dimension": "spectral",
+                            "tag": f"multi-config/{sname}", "exact": True}
+                    if multi_ok(spec):
+                        yield spec
